@@ -11,7 +11,7 @@ open S3V S3V.SigV2 S3V.SigV2Thm
 
 def date : Bytes × Bytes := (sp!"Date", sp!"Tue, 27 Mar 2007 19:36:42 +0000")
 
-/-- repaired by 84b42d5 (was finding `positional-header-repeated`, corpus `w-sts-content-type-twice`):
+/-- repaired by 19510e9 (was finding `positional-header-repeated`, corpus `w-sts-content-type-twice`):
     Content-Type sent twice -/
 def rCtypeTwice : SigV2Spec.Req :=
   ⟨sp!"GET", [date, (sp!"Content-Type", sp!"a/b"), (sp!"Content-Type", sp!"c/d")], sp!"/bkt/k", [], none⟩
@@ -49,7 +49,7 @@ theorem C11_repaired_positional_verdict (hmac : Bytes → Bytes → Bytes) (b64 
       SigV2Spec.Accepts hmac b64 lookup nowNs rMd5DateTwice ak :=
   C11.C11_verdict_iff_spec hmac b64 lookup nowNs _ ak hnow hclock (by decide +kernel)
 
-/-- repaired by d23bb5e (was finding `xamzdate-repeated`, corpus `w-sts-xamzdate-twice`): x-amz-date sent
+/-- repaired by d895b5e (was finding `xamzdate-repeated`, corpus `w-sts-xamzdate-twice`): x-amz-date sent
     twice blanks the Date element (it used to leave `D` there) -/
 def rXAmzDateTwice : SigV2Spec.Req :=
   ⟨sp!"GET", [(sp!"Date", sp!"D"), (sp!"x-amz-date", sp!"A"), (sp!"x-amz-date", sp!"B")], sp!"/bkt/k", [], none⟩
